@@ -71,7 +71,8 @@ class Ellipsoid(Shape3D):
 
     @centroid.setter
     def centroid(self, value):
-        self._centroid = np.asarray(value)
+        # Copy so that the caller's array is neither stored nor aliased.
+        self._centroid = np.array(value)
 
     @property
     def a(self):
